@@ -1833,6 +1833,9 @@ func (b *Block) setExportedVars() (err error) {
 		return fmt.Errorf("number of labels (%d) exceeds what can be contained in max block size %d", numLabels, MaxBlockSize)
 	}
 
+	if 16+uint64(numLabels)*8 > uint64(len(b.data)) {
+		return fmt.Errorf("block data of %d bytes is too short to hold %d labels", len(b.data), numLabels)
+	}
 	b.Labels, err = dvid.AliasByteToUint64(b.data[16 : 16+numLabels*8])
 	if err != nil {
 		return
@@ -1848,16 +1851,24 @@ func (b *Block) setExportedVars() (err error) {
 	pos := uint32(16)
 	pos += numLabels * 8
 	nbytes := numSubBlocks * 2
+	if nbytes == 0 || uint64(pos)+uint64(nbytes) > uint64(len(b.data)) {
+		return fmt.Errorf("block data of %d bytes is too short to hold %d sub-block label counts", len(b.data), numSubBlocks)
+	}
 	b.NumSBLabels, err = dvid.AliasByteToUint16(b.data[pos : pos+nbytes])
 	if err != nil {
 		return
 	}
 	var numSubBlockIndices uint32
+	var totalIndices uint64
 	for _, num := range b.NumSBLabels {
 		numSubBlockIndices += uint32(num)
+		totalIndices += uint64(num)
 	}
 
 	pos += nbytes
+	if totalIndices == 0 || uint64(pos)+totalIndices*4 > uint64(len(b.data)) {
+		return fmt.Errorf("block data of %d bytes is too short to hold %d sub-block indices", len(b.data), totalIndices)
+	}
 	subBlockIndexBytes := numSubBlockIndices * 4
 	b.SBIndices, err = dvid.AliasByteToUint32(b.data[pos : pos+subBlockIndexBytes])
 	if err != nil {
